@@ -585,3 +585,25 @@ equivalent("c16-eq-reorder-state-blocks", ["C16"], (R, """            if state &
                 state = s_hedge | s_term
                 continue
 """))
+
+# ------------------------------------------------------------------------------------------ C06 specific
+mutant("c06-load-left-right-swapped", "C06", (R, """                    operator.right = stack.pop()
+                    operator.left = stack.pop()""", """                    operator.left = stack.pop()
+                    operator.right = stack.pop()"""), "W1/Antecedent.load")
+mutant("c06-hedges-prepended", "C06", (R, """                    hedge = factory.construct(token)
+                    proposition.hedges.append(hedge)  # type: ignore
+                    state = s_variable | s_and_or if""", """                    hedge = factory.construct(token)
+                    proposition.hedges.insert(0, hedge)  # type: ignore
+                    state = s_variable | s_and_or if"""), "H1/Antecedent.load")
+mutant("c06-format-keeps-and-or", "C06", (T, "        operators -= {Rule.AND, Rule.OR}\n", "        operators -= {Rule.AND}\n"), "X1/Function.format_infix/alphabet")
+mutant("c06-format-no-reverse", ["C06"], (T, "sorted(operators, reverse=True)", "sorted(operators)"), "X1/Function.format_infix/longest-first")
+mutant("c06-any-applies-term", "C06", (R, """                if isinstance(node.hedges[-1], Any):
+                    result = scalar(nan)
+                    for hedge in reversed(node.hedges):
+                        result = hedge.hedge(result)
+                    return result""", """                if isinstance(node.hedges[-1], Any):
+                    result = node.term.membership(node.variable.value)
+                    for hedge in reversed(node.hedges):
+                        result = hedge.hedge(result)
+                    return result"""), "P9/Antecedent.activation_degree/any")
+mutant("c06-operands-reversed-queue", "C06", (T, '        postfix = " ".join(queue)', '        postfix = " ".join(reversed(queue))'), "X7/")
